@@ -172,7 +172,7 @@ BRIDGE = {
         "collect_budget_bridge", "sd_res_bridge", "sd_req_bridge", "sd_dm_cond_bridge", "bind_by_addr_bridge",
         "setsockopt_clamp_bridge", "connect_clamp_bridge", "accept_clamp_bridge", "poll_badf_bridge",
         "bind_pre_bridge", "recvfrom_badf_bridge", "dispatch_unknown_bridge", "activate_gb_bridge",
-        "bind_by_none_bridge", "bind_by_name_bridge", "gen_bind_ranges")],
+        "bind_by_none_bridge", "bind_by_name_bridge", "gen_bind_ranges", "gen_sendPax", "gen_negotiated_llc")],
     "properties": ["C17", "C10", "C19"],
 }
 
